@@ -167,7 +167,8 @@ type CaseC18Prim struct {
 	Prim   string `json:"prim"` // str numlist fixlist strlist strlist-inner objlist
 	Prefix string `json:"prefix"`
 	LE     bool   `json:"le"`
-	N      int    `json:"n"` // number of elements / bytes
+	N      int    `json:"n"`              // number of elements / bytes
+	Lead   int    `json:"lead,omitempty"` // strlist-inner: this many maximum-length elements precede the tested one (megabytes of valid list data first)
 }
 
 func oracleC18Prim(c *CaseC18Prim) *Failure {
@@ -202,7 +203,14 @@ func oracleC18Prim(c *CaseC18Prim) *Failure {
 		}
 	case "strlist-inner":
 		pc.Prim, pc.Inner, pc.Prefix = "strlist", c.Prefix, "uint32"
-		pc.Strs = []HexBytes{HexBytes("ok"), bytes.Repeat([]byte{'y'}, c.N)}
+		pc.Strs = []HexBytes{HexBytes("ok")}
+		if c.Lead > 0 {
+			full := bytes.Repeat([]byte{'z'}, int(max))
+			for i := 0; i < c.Lead; i++ {
+				pc.Strs = append(pc.Strs, full)
+			}
+		}
+		pc.Strs = append(pc.Strs, bytes.Repeat([]byte{'y'}, c.N))
 	case "objlist":
 		pc.Prim = "objlist"
 		pc.Strs = make([]HexBytes, c.N)
@@ -240,7 +248,7 @@ func oracleC18Prim(c *CaseC18Prim) *Failure {
 		if len(nums)+len(ss) != len(pc.Nums)+len(pc.Strs) {
 			return failf(sig+"/roundtrip", "length %d: read back %d elements", c.N, len(nums)+len(ss))
 		}
-		if c.Prim == "str" && len(ss[0]) != c.N || c.Prim == "strlist-inner" && len(ss[1]) != c.N {
+		if c.Prim == "str" && len(ss[0]) != c.N || c.Prim == "strlist-inner" && len(ss[1+c.Lead]) != c.N {
 			return failf(sig+"/roundtrip", "length %d: text read back with another length", c.N)
 		}
 	}
@@ -322,6 +330,7 @@ type CaseC18Msg struct {
 	Field string     `json:"field"`          // the prefixed field that is blown up
 	Inner bool       `json:"inner"`          // exceed the per-element length prefix of a text list instead of the count
 	N     int        `json:"n"`
+	Lead  int        `json:"lead,omitempty"` // Inner: this many maximum-length entries precede the tested one
 }
 
 // c18Build: skeleton of the type with the named (possibly nested) field blown up to n elements/bytes.
@@ -379,7 +388,11 @@ func c18Build(c *CaseC18Msg) (*Value, uint64, bool) {
 	case "textlist":
 		if c.Inner {
 			max = NMask(f.Prefix)
-			x.TL = []HexBytes{HexBytes("ok"), bytes.Repeat([]byte{'y'}, c.N)}
+			x.TL = []HexBytes{HexBytes("ok")}
+			for j := 0; j < c.Lead; j++ {
+				x.TL = append(x.TL, bytes.Repeat([]byte{'z'}, int(max)))
+			}
+			x.TL = append(x.TL, bytes.Repeat([]byte{'y'}, c.N))
 		} else {
 			max = NMask(f.Count)
 			x.TL = make([]HexBytes, c.N)
@@ -517,6 +530,12 @@ func TestC18(t *testing.T) {
 							Col.Sample("prim", c)
 						}
 						Direct(t, "C18", "c18prim", fmt.Sprintf("prim/%s/%s/%v/%d", prim, pfx, le, n), c, oracleC18Prim)
+						if prim == "strlist-inner" && (n == max || n == max+1) {
+							// the same element after a few megabytes of valid elements
+							lc := &CaseC18Prim{Prim: prim, Prefix: pfx, LE: le, N: n, Lead: (3<<20)/max + 1}
+							Col.Case(Hash64(JSONOf(lc)), true, "primitive", cls, "prefix:"+pfx, "over-long element after megabytes of valid list data")
+							Direct(t, "C18", "c18prim", fmt.Sprintf("prim/%s/%s/%v/%d/late", prim, pfx, le, n), lc, oracleC18Prim)
+						}
 					}
 				}
 			}
@@ -566,22 +585,34 @@ func TestC18(t *testing.T) {
 					if len(tg.path) == 0 {
 						ns = append(ns, 2*max+2)
 					}
+					leads := []int{0}
+					if tg.inner && len(tg.path) <= 1 {
+						leads = append(leads, (3<<20)/max+1)
+					}
 					for _, n := range ns {
-						c := &CaseC18Msg{Type: tn, Key: k, Path: tg.path, Field: tg.field, Inner: tg.inner, N: n}
-						cls := "at-max"
-						if n > max {
-							cls = "beyond-max"
+						for _, lead := range leads {
+							if lead > 0 && n > max+1 {
+								continue
+							}
+							c := &CaseC18Msg{Type: tn, Key: k, Path: tg.path, Field: tg.field, Inner: tg.inner, N: n, Lead: lead}
+							cls := "at-max"
+							if n > max {
+								cls = "beyond-max"
+							}
+							nest := "top-level-field"
+							if len(tg.path) > 0 {
+								nest = "nested-field(error must propagate through the enclosing message)"
+							}
+							Col.Case(Hash64(JSONOf(c)), true, "message-field", cls, nest)
+							Col.Program(tn)
+							if Col.WantSample("msg:" + nest) {
+								Col.Sample("msg:"+nest, c)
+							}
+							if lead > 0 {
+								Col.Class("over-long entry after megabytes of valid entries", 1)
+							}
+							Direct(t, "C18", "c18msg", fmt.Sprintf("msg/%s/%d/%s/%v/%d/%d", tn, k, c18PathString(c), tg.inner, n, lead), c, oracleC18Msg)
 						}
-						nest := "top-level-field"
-						if len(tg.path) > 0 {
-							nest = "nested-field(error must propagate through the enclosing message)"
-						}
-						Col.Case(Hash64(JSONOf(c)), true, "message-field", cls, nest)
-						Col.Program(tn)
-						if Col.WantSample("msg:" + nest) {
-							Col.Sample("msg:"+nest, c)
-						}
-						Direct(t, "C18", "c18msg", fmt.Sprintf("msg/%s/%d/%s/%v/%d", tn, k, c18PathString(c), tg.inner, n), c, oracleC18Msg)
 					}
 				}
 			}
